@@ -99,6 +99,11 @@ impl Caret {
         buf.reset_terminal();
         buf.layers[current_layer].clear();
         buf.stop_sixel_threads();
+        if buf.is_terminal_buffer {
+            // all rows (incl. the scrollback) are gone: shrink the buffer back to the screen, as clear_screen does,
+            // otherwise row 0 lies above the first visible line
+            buf.set_size(buf.terminal_state.get_size());
+        }
         self.pos = Position::default();
         self.set_is_visible(true);
         self.reset_color_attribute();
